@@ -111,11 +111,18 @@ def moments(ctx: Context) -> None:
         evs = reaching_events(g, name, rn)
         allocs = [a for _, k, a in evs if k == "assign"]
         stores = [(nd, a) for nd, k, a in evs if k == "sub"]
-        ok = len(allocs) == 1 and isinstance(allocs[0].value, ast.Call) and (dotted(allocs[0].value.func) or "").split(".")[-1] in ("zeros", "empty", "full") \
-            and isinstance(allocs[0].value.args[0], ast.Constant) and allocs[0].value.args[0].value == 18  # type: ignore[union-attr]
-        ctx.check(ok, "R3.vector", "get_mom_ts_1d:alloc", "the summary has 18 entries", f"summary allocated by `{src(allocs[0].value) if allocs else '?'}`", f, allocs[0] if allocs else r)  # type: ignore[union-attr]
-        idxs = sorted({a.targets[0].slice.value for _, a in stores if isinstance(a, ast.Assign) and isinstance(a.targets[0].slice, ast.Constant)})  # type: ignore[union-attr]
-        ctx.check(idxs == list(range(18)), "R3.vector", "get_mom_ts_1d:all-entries", "every entry 0..17 is stored", f"entries stored: {idxs}", f, r)
+        fixed = len(allocs) == 1 and isinstance(allocs[0].value, ast.Call) and (dotted(allocs[0].value.func) or "").split(".")[-1] in ("zeros", "empty", "full") \
+            and allocs[0].value.args and isinstance(allocs[0].value.args[0], ast.Constant)  # type: ignore[union-attr]
+        if fixed:
+            # filled entry by entry: the documented 18 entries, each stored
+            ok = allocs[0].value.args[0].value == 18  # type: ignore[union-attr]
+            ctx.check(ok, "R3.vector", "get_mom_ts_1d:alloc", "the summary has 18 entries", f"summary allocated by `{src(allocs[0].value) if allocs else '?'}`", f, allocs[0] if allocs else r)  # type: ignore[union-attr]
+            idxs = sorted({a.targets[0].slice.value for _, a in stores if isinstance(a, ast.Assign) and isinstance(a.targets[0].slice, ast.Constant)})  # type: ignore[union-attr]
+            ctx.check(idxs == list(range(18)), "R3.vector", "get_mom_ts_1d:all-entries", "every entry 0..17 is stored", f"entries stored: {idxs}", f, r)
+        else:
+            # assembled some other way (concatenation of blocks, ...): its length is a runtime quantity; what is decided is that it is sanitised before being returned
+            ctx.notes["get_mom_ts_1d_vector"] = f"assembled by `{src(allocs[0].value)[:80] if allocs else '?'}` - length not decided"
+            stores = stores + [(nd, a) for nd, k, a in evs if k == "assign"]
         if sanitised_expr:
             ctx.ok("R3.sanitise", "get_mom_ts_1d:nan_to_num", "the returned value is nan_to_num(summary)")
             continue
